@@ -22,7 +22,7 @@ import (
 
 func TestMain(m *testing.M) {
 	time.Local = time.UTC
-	ev.Describe("0..12 incoming datagrams per discovery: valid get-device replies (all fields random, serial >= 1, some matching configured controller names, duplicates) interleaved in every order with the malformed classes {wrong length, wrong protocol id, 0x19 id, wrong function code, non-decimal nibble in the date}; broadcast address configured (any port) or default. Hook layer: the script is what the in-memory driver's Broadcast returns. Socket layer: a farm endpoint standing in for the broadcast address answers the real broadcast with the script from one socket (arrival order = send order) or from several sockets (compared as a multiset). Oracle: the expected list is the protocol decoding of the valid datagrams in order, Address = reply IP + broadcast port (60000 by default), Name from the configuration; the call never fails. Non-trivial = >= 2 valid replies with >= 1 malformed datagram in between; distinct = distinct (configuration, datagrams).",
+	ev.Describe("0..12 incoming datagrams per discovery: valid get-device replies (all fields random, serial >= 1, some matching configured controller names, duplicates) interleaved in every order with the malformed classes {wrong length, wrong protocol id, 0x19 id, wrong function code, non-decimal nibble in the date}; broadcast address configured (any port) or default; debug output on/off; socket layer: replies sent at once or spread over up to 80% of the collection window (120 ms, now and then 1.15-1.3 s). Hook layer: the script is what the in-memory driver's Broadcast returns. Socket layer: a farm endpoint standing in for the broadcast address answers the real broadcast with the script from one socket (arrival order = send order) or from several sockets (compared as a multiset). Oracle: the expected list is the protocol decoding of the valid datagrams in order, Address = reply IP + broadcast port (60000 by default), Name from the configuration; the call never fails. Non-trivial = >= 2 valid replies with >= 1 malformed datagram in between; distinct = distinct (configuration, datagrams).",
 		"replies with serial number 0 and BCD-clean but calendar-impossible dates are outside every stated domain and are not generated",
 		"socket-layer failures are re-run with the collection window x4 before they count")
 	ev.Main(m, "C11")
@@ -33,6 +33,10 @@ type discCase struct {
 	Cfg       hook.ClientCfg `json:"cfg"`
 	Datagrams [][]byte       `json:"datagrams"`
 	Senders   []int          `json:"senders,omitempty"` // socket layer: index of the sending socket per datagram
+	// socket layer: collection window (0 = 120 ms) and, per datagram, the time at which it is sent as a percentage of the
+	// window after the request was seen (non-decreasing, at most 80: every datagram is sent well before the timeout)
+	WindowMs int   `json:"window_ms,omitempty"`
+	AtPct    []int `json:"at_pct,omitempty"`
 }
 
 func isValid(d []byte) bool {
@@ -161,8 +165,17 @@ func runSocket(c discCase, scale int) *rp.Fail {
 	multi := false
 	main, err := f.UDP([4]byte{127, 0, 2, 1}, 0, farm.Script(func(r farm.Received) []farm.Action {
 		var a []farm.Action
+		window := 120
+		if c.WindowMs != 0 {
+			window = c.WindowMs
+		}
+		prev := 0
 		for i, d := range c.Datagrams {
 			act := farm.Action{Data: d}
+			if i < len(c.AtPct) && c.AtPct[i] > prev {
+				act.Delay = time.Duration((c.AtPct[i]-prev)*window*scale) * time.Millisecond / 100
+				prev = c.AtPct[i]
+			}
 			if i < len(c.Senders) && c.Senders[i] > 0 {
 				act.Via = extra[c.Senders[i]-1]
 			}
@@ -182,6 +195,9 @@ func runSocket(c discCase, scale int) *rp.Fail {
 	cfg := c.Cfg
 	cfg.HasBroadcast, cfg.BroadcastIP, cfg.BroadcastPort = true, [4]byte{127, 0, 2, 1}, main.Addr.Port()
 	cfg.TimeoutMs = 120 * scale
+	if c.WindowMs != 0 {
+		cfg.TimeoutMs = c.WindowMs * scale
+	}
 	cfg.BindIP = [4]byte{127, 0, 0, 1}
 	u := hook.Real(cfg)
 	var list []types.Device
@@ -225,6 +241,12 @@ func check(c discCase) *rp.Fail {
 	ev.Case(class, valid >= 2 && malformedBetween, key)
 	if !c.Cfg.HasBroadcast {
 		ev.Class(c.Layer+"/default-broadcast-port", 1)
+	}
+	if c.WindowMs > 1000 {
+		ev.Class(c.Layer+"/collection-window-above-1s", 1)
+	}
+	if len(c.AtPct) > 0 && c.AtPct[len(c.AtPct)-1] >= 50 {
+		ev.Class(c.Layer+"/replies-spread-over-the-window", 1)
 	}
 	if ev.WantSample(class) {
 		ev.Sample(class, map[string]any{"incoming": describe(c), "broadcast_port": c.Cfg.BroadcastPort, "has_broadcast": c.Cfg.HasBroadcast, "expected_entries": valid})
@@ -292,10 +314,31 @@ func genCase(layer string) func(t *rapid.T) discCase {
 		for i, s := range serials {
 			if !seen[s] && rapid.Bool().Draw(t, "configured") {
 				seen[s] = true
-				c.Cfg.Devices = append(c.Cfg.Devices, hook.DeviceCfg{Name: fmt.Sprintf("Controller %d", i), Serial: s, HasAddr: rapid.Bool().Draw(t, "has.addr"), IP: [4]byte{10, 0, 0, byte(i)}, Port: 60000, Protocol: "udp"})
+				c.Cfg.Devices = append(c.Cfg.Devices, hook.DeviceCfg{Name: fmt.Sprintf("Controller %d", i), Serial: s, HasAddr: rapid.Bool().Draw(t, "has.addr"), IP: [4]byte{10, 0, 0, byte(i)}, Port: 60000, Protocol: "udp", TZ: gen.DeviceTZ(t, "tz")})
 			}
 		}
-		c.Cfg.Devices = append(c.Cfg.Devices, hook.DeviceCfg{Name: "Silent", Serial: 1})
+		c.Cfg.Devices = append(c.Cfg.Devices, hook.DeviceCfg{Name: "Silent", Serial: 1, TZ: gen.DeviceTZ(t, "tz.silent")})
+		c.Cfg.Debug = gen.Debug(t, "debug")
+		if layer == "socket" && n > 0 && rapid.IntRange(0, 2).Draw(t, "spread") == 0 {
+			// replies arrive spread over the window, the last one at up to 80% of it; now and then the window is longer
+			// than a second
+			if rapid.IntRange(0, 3).Draw(t, "long.window") == 0 {
+				c.WindowMs = rapid.SampledFrom([]int{1150, 1300}).Draw(t, "window")
+			}
+			at := 0
+			for i := 0; i < n; i++ {
+				if rapid.IntRange(0, 2).Draw(t, "gap") == 0 {
+					at += rapid.IntRange(1, 80).Draw(t, "gap.pct")
+				}
+				if at > 80 {
+					at = 80
+				}
+				c.AtPct = append(c.AtPct, at)
+			}
+			if rapid.Bool().Draw(t, "last.late") {
+				c.AtPct[n-1] = 80
+			}
+		}
 		return c
 	}
 }
